@@ -39,8 +39,14 @@ Unit(lf, uf, fl, lv, uv) ==
       \* a bound that is not removed is emitted as a constant compared with a field of the chosen type
       lowerLeft == lf # "none" /\ ~ty.rmin /\ ~InRange(ty.ty, lv)
       upperLeft == uf # "none" /\ ~ty.rmax /\ ~InRange(ty.ty, uv)
+      \* as it is: type and removal are decided on float64-rounded constants, and the constant that is emitted is
+      \* int64(float64(v)) (JV.GoBound: -2^63 for constants near +2^63 and 2^64), which no unsigned type holds
+      tyD == MinIntType(PMin(leaf), PMax(leaf), PEx(leaf, "exclusiveMinimum"), PEx(leaf, "exclusiveMaximum"), Devs)
+      lowerLeftD == lf # "none" /\ ~tyD.rmin /\ ~InRange(tyD.ty, GoBound(lv, Devs))
+      upperLeftD == uf # "none" /\ ~tyD.rmax /\ ~InRange(tyD.ty, GoBound(uv, Devs))
   IN PosUnit("C15", "req", leaf, docs, JNull) @@ [opts |-> [minSizedInts |-> fl]]
-     @@ [nobuild |-> IF fl /\ (lowerLeft \/ upperLeft) THEN <<"SizedBoundConstantOverflows">> ELSE <<>>]
+     @@ [nobuild |-> (IF fl /\ (lowerLeft \/ upperLeft) THEN <<"SizedBoundConstantOverflows">> ELSE <<>>)
+                     \o (IF fl /\ (lowerLeftD \/ upperLeftD) /\ ~(lowerLeft \/ upperLeft) THEN <<"Float64Bounds">> ELSE <<>>)]
 
 u == Unit(lowForm, upForm, flag, vs[1], vs[2])
 Set == vs # <<>>
